@@ -63,6 +63,19 @@ def gen(tier, seed):
         for off in (1 - U[-1], -U[-1], 1 - U[0]):
             extra.append(dict(v, U=[x + off for x in U], kind="moved-ends", force_normalize=True))
     vecs = vecs + extra
+    # an interior knot 1e-7 (or 3e-7) below the last knot - closer than the 1e-6 the library uses to tell distinct knots apart:
+    # normalize must still divide by the LAST knot (compared on the knot vector only: basis evaluation over such vectors is
+    # the library's known limitation K2)
+    close = []
+    for v in rnd.sample([w for w in vecs if w["p"] >= 1 and not w.get("force_normalize")], 6 if tier == "quick" else 60):
+        U, p = list(v["U"]), v["p"]
+        eps = (U[-1] - U[0]) * F(1, rnd.choice((10 ** 7, 3 * 10 ** 6)))
+        k = U[-1] - eps
+        if any(U[0] < x < U[-1] and abs(x - k) < F(1, 1000) for x in U):
+            continue
+        U2 = U[:len(U) - p - 1] + [k] + U[len(U) - p - 1:]
+        close.append(dict(v, U=U2, mults=v["mults"] + [1], kind="close-to-umax", only_normalize=True))
+    vecs = vecs + close
     for v in vecs:
         U, p = v["U"], v["p"]
         ops = [("shift", rand_q(rnd)), ("shift", F(rnd.randint(-10 ** 12, 10 ** 12), 10 ** 9 + 7)),
@@ -70,6 +83,10 @@ def gen(tier, seed):
                ("normalize", None)]
         # knots moved far from the origin (a timestamp, +-1e10, 2^40 + 1/3): distinct knots must stay distinct
         far = ("shift", rnd.choice((F(1700000000), F(10 ** 10), F(-10 ** 10), F(2 ** 40) + F(1, 3), F(-987654321012, 7))))
+        if v.get("only_normalize"):
+            cases.append({"k": "aff", "U": fsl(U), "p": p, "kind": v["kind"], "mults": v["mults"], "op": "normalize",
+                          "arg": None, "nodes": [], "P": fsl([rand_q(rnd) for _ in range(npts_of(U, p))])})
+            continue
         if v.get("force_normalize"):
             ops = [ops[4], ops[rnd.randrange(3)]]
         elif tier == "quick":
@@ -138,9 +155,29 @@ def impl(case):
                 kv = G.random(p, n, Fraction)
             info["types"] = all(isinstance(x, Fraction) or (case.get("mixed") and isinstance(x, int)) for x in kv)
             info["npts"] = int(kv.npts)
+            made.append(kv)
             return {"U": out_nums(list(kv)), "p": int(kv.degree)}
+        made = []
         r = capture(build)
-        return {"r": r, "types": info.get("types", False), "npts": info.get("npts", 0)}
+        usable = True
+        if made:
+            # the generated vector must be USABLE as it is: distinct knots, multiplicities, spans, basis functions and a
+            # curve over it evaluate (exact numbers of a foreign integer class inside a Fraction would overflow here)
+            def use():
+                kv = made[0]
+                lo, hi = kv.limits
+                mid = (Fraction(lo) + Fraction(hi)) / 2
+                ks = kv.knots
+                [kv.mult(k) for k in ks], kv.span(mid), kv.valid(mid)
+                vals = Function(kv)(mid)
+                exact = all(isinstance(x, Fraction) for x in kv)        # integer knots may legitimately give floats (C16)
+                if exact and (sum(vals) != 1 or not all(isinstance(v, (int, Fraction)) for v in vals)):
+                    raise ArithmeticError("basis over the generated vector does not sum to one exactly")
+                if not exact and abs(float(sum(vals)) - 1) > 1e-12:
+                    raise ArithmeticError("basis over the generated vector does not sum to one")
+                Curve(kv, [Fraction(i, 3) for i in range(int(kv.npts))])(mid)
+            usable = "ok" in capture(use)
+        return {"r": r, "types": info.get("types", False) and usable, "npts": info.get("npts", 0)}
     U = nums(case["U"])
     kv = KnotVector(U)
     nodes = nums(case["nodes"])
